@@ -3,12 +3,16 @@ package c13
 import (
 	"bytes"
 	"crypto/ecdsa"
+	"crypto/ed25519"
 	"crypto/elliptic"
 	"crypto/x509"
 	"crypto/x509/pkix"
+	"encoding/asn1"
 	"encoding/pem"
 	"fmt"
 	"math/big"
+	"net"
+	"net/url"
 	"strings"
 	"sync"
 	"time"
@@ -313,6 +317,43 @@ func buildTargets() []*target {
 	caKey := must(sm2.GenerateKey(rnd))
 	ca := mkCert(rnd, &caKey.PublicKey, nil, nil, caKey, true, "root")
 	leaf := mkCert(rnd, &priv.PublicKey, ca, caKey, nil, false, "leaf")
+	// a certificate exercising most extension parsers
+	richTmpl := &x509.Certificate{
+		SerialNumber: big.NewInt(424242), Subject: pkix.Name{CommonName: "rich", Organization: []string{"O1", "O2"}, Country: []string{"CN"}, Province: []string{"P"}, Locality: []string{"L"}, OrganizationalUnit: []string{"OU"}, SerialNumber: "S1"},
+		NotBefore: refNotBefore, NotAfter: refNotAfter,
+		KeyUsage: x509.KeyUsageCertSign | x509.KeyUsageDigitalSignature | x509.KeyUsageCRLSign, ExtKeyUsage: []x509.ExtKeyUsage{x509.ExtKeyUsageServerAuth, x509.ExtKeyUsageClientAuth, x509.ExtKeyUsageOCSPSigning},
+		UnknownExtKeyUsage:    []asn1.ObjectIdentifier{{1, 2, 3, 4}},
+		BasicConstraintsValid: true, IsCA: true, MaxPathLen: 1,
+		DNSNames: []string{"a.example.com", "*.b.example.com"}, EmailAddresses: []string{"x@example.com"},
+		IPAddresses: []net.IP{net.IPv4(10, 1, 2, 3), net.ParseIP("2001:db8::1")}, URIs: []*url.URL{{Scheme: "https", Host: "example.com", Path: "/x"}},
+		SubjectKeyId: []byte{9, 8, 7}, AuthorityKeyId: []byte{1, 2, 3, 4},
+		OCSPServer: []string{"http://ocsp.example.com"}, IssuingCertificateURL: []string{"http://ca.example.com/ca.crt"},
+		CRLDistributionPoints:       []string{"http://crl.example.com/1.crl"},
+		PolicyIdentifiers:           []asn1.ObjectIdentifier{{2, 5, 29, 32, 0}, {1, 2, 3, 5}},
+		PermittedDNSDomainsCritical: true, PermittedDNSDomains: []string{".example.com"}, ExcludedDNSDomains: []string{"bad.example.com"},
+		PermittedIPRanges: []*net.IPNet{{IP: net.IPv4(10, 0, 0, 0), Mask: net.CIDRMask(8, 32)}}, ExcludedIPRanges: []*net.IPNet{{IP: net.IPv4(10, 9, 0, 0), Mask: net.CIDRMask(16, 32)}},
+		PermittedEmailAddresses: []string{"example.com"}, ExcludedURIDomains: []string{".evil.example"},
+		ExtraExtensions: []pkix.Extension{{Id: asn1.ObjectIdentifier{1, 2, 3, 4, 5}, Critical: false, Value: []byte{0x04, 0x02, 0x01, 0x02}}},
+	}
+	richDER := must(smx509.CreateCertificate(rnd, richTmpl, ca.ToX509(), &priv2.PublicKey, caKey))
+	ecKey := &ecdsa.PrivateKey{PublicKey: ecdsa.PublicKey{Curve: elliptic.P256()}, D: new(big.Int).SetBytes(gen.Fill(91, 31))}
+	ecKey.X, ecKey.Y = elliptic.P256().ScalarBaseMult(ecKey.D.Bytes())
+	ecCertDER := must(smx509.CreateCertificate(rnd, &x509.Certificate{SerialNumber: big.NewInt(77), Subject: pkix.Name{CommonName: "ec"}, NotBefore: refNotBefore, NotAfter: refNotAfter, DNSNames: []string{"ec.example"}}, ca.ToX509(), &ecKey.PublicKey, caKey))
+	edPub, _, _ := ed25519.GenerateKey(rnd)
+	edCertDER := must(smx509.CreateCertificate(rnd, &x509.Certificate{SerialNumber: big.NewInt(78), Subject: pkix.Name{CommonName: "ed"}, NotBefore: refNotBefore, NotAfter: refNotAfter}, ca.ToX509(), edPub, caKey))
+	rsaCertDER := must(smx509.CreateCertificate(rnd, &x509.Certificate{SerialNumber: big.NewInt(79), Subject: pkix.Name{CommonName: "rsa0"}, NotBefore: refNotBefore, NotAfter: refNotAfter}, ca.ToX509(), &testkeys.RSA1024().PublicKey, caKey))
+	add("x509", "smx509.ParseCertificate(rich)", func(b []byte) int {
+		c, err := smx509.ParseCertificate(b)
+		if err == nil {
+			c.CheckSignatureFrom(ca)
+			pool := smx509.NewCertPool()
+			pool.AddCert(ca)
+			c.Verify(smx509.VerifyOptions{Roots: pool, CurrentTime: refNotBefore.Add(time.Hour), DNSName: "a.example.com", KeyUsages: []x509.ExtKeyUsage{x509.ExtKeyUsageAny}})
+			c.VerifyHostname("10.1.2.3")
+			c.ToX509()
+		}
+		return d(err)
+	}, richDER, ecCertDER, edCertDER, rsaCertDER)
 	add("x509", "smx509.ParseCertificate", func(b []byte) int {
 		c, err := smx509.ParseCertificate(b)
 		if err == nil {
